@@ -11,19 +11,22 @@
 #include "contracts/copy.h"
 
 /* cbor_decref as the regions see it: hereditary (A1: the subtree is the released item's business) + call record */
+/* (assumed variants require the allocator binding only: the numeric part of ALLOC_MODEL_BOUND exists to keep "+1" in
+ * enforced postconditions from wrapping, and the induction-hypothesis twin hands back arbitrary counter values) */
 void cbor_decref__counted(cbor_item_t **item_ref)
-__CPROVER_requires(ALLOC_MODEL_BOUND && __CPROVER_rw_ok(item_ref, sizeof(cbor_item_t *)) && ITEM_RW(*item_ref) &&
+__CPROVER_requires(ALLOC_BINDING && __CPROVER_rw_ok(item_ref, sizeof(cbor_item_t *)) && ITEM_RW(*item_ref) &&
                    (*item_ref)->refcount >= 1 && HEAP_BLOCK(*item_ref) && g_d.calls < 8)
-__CPROVER_assigns(ALLOC_GHOSTS, g_d, *item_ref, (*item_ref)->refcount)
+/* the caller's pointer is cleared only with the last reference: elsewhere it stays a KNOWN pointer (a pointer read back
+ * from contract-assigned memory cannot be dereferenced by the verifier, and made the second of two calls infeasible) */
+__CPROVER_assigns(ALLOC_GHOSTS, g_d, (*item_ref)->refcount)
+__CPROVER_assigns((*item_ref)->refcount == 1 : *item_ref)
 __CPROVER_frees((*item_ref)->refcount == 1 : *item_ref)
-__CPROVER_ensures(g_d.calls == OLD(g_d.calls) + 1 && g_d.last == item_ref &&
+__CPROVER_ensures(g_d.calls == OLD(g_d.calls) + 1 &&
                   g_d.hits == OLD(g_d.hits) + ((OLD((*item_ref)->refcount) == 1) ? 1 : 0))
 __CPROVER_ensures(OLD((*item_ref)->refcount) > 1 ==>
-                  ((OLD(*item_ref))->refcount == OLD((*item_ref)->refcount) - 1 && *item_ref == OLD(*item_ref) &&
-                   g_live == OLD(g_live) && g_free_calls == OLD(g_free_calls)))
+                  ((*item_ref)->refcount == OLD((*item_ref)->refcount) - 1 && g_live == OLD(g_live) && g_free_calls == OLD(g_free_calls)))
 __CPROVER_ensures(OLD((*item_ref)->refcount) == 1 ==> (*item_ref == NULL && g_free_calls > OLD(g_free_calls) && g_live < OLD(g_live)))
-__CPROVER_ensures(g_malloc_calls == OLD(g_malloc_calls) && g_realloc_calls == OLD(g_realloc_calls) && g_refused == OLD(g_refused) &&
-                  g_free_calls < SIZE_MAX / 2);
+__CPROVER_ensures(g_malloc_calls == OLD(g_malloc_calls) && g_realloc_calls == OLD(g_realloc_calls) && g_refused == OLD(g_refused));
 
 /* cbor_map_add as the map case of cbor_copy sees it: the facts of the full contract (contracts/items_cont.h; proofs
  * cont_map_add_lemma, cont_map_add_value, append_map) that do not mention the pair storage, plus a ghost record of what was
@@ -33,23 +36,22 @@ __CPROVER_ensures(g_malloc_calls == OLD(g_malloc_calls) && g_realloc_calls == OL
 struct verif_mapadd_ghost { size_t calls; cbor_item_t *item, *key, *value; };
 extern struct verif_mapadd_ghost g_m;
 bool cbor_map_add__copy(cbor_item_t *item, struct cbor_pair pair)
-__CPROVER_requires(ALLOC_MODEL_BOUND && MAP_VALID(item) && ITEM_RW(pair.key) && pair.key->refcount < SIZE_MAX - 1 &&
+__CPROVER_requires(ALLOC_BINDING && MAP_VALID(item) && ITEM_RW(pair.key) && pair.key->refcount < SIZE_MAX - 1 &&
                    ITEM_RW(pair.value) && pair.value->refcount < SIZE_MAX - 1 && pair.key != item && pair.value != item &&
                    pair.key != pair.value && g_m.calls < 4)
 __CPROVER_requires((MP_META(item).type == _CBOR_METADATA_INDEFINITE && MP_META(item).allocated > 0) ==> HEAP_BLOCK(item->data))
-__CPROVER_assigns(ALLOC_GHOSTS, g_m, item->metadata, pair.key->refcount, pair.value->refcount)
-__CPROVER_ensures(g_m.calls == OLD(g_m.calls) + 1 && g_m.item == item && g_m.key == pair.key && g_m.value == pair.value)
-__CPROVER_ensures(OLD(MP_META(item).type) == _CBOR_METADATA_DEFINITE ==>
+__CPROVER_assigns(ALLOC_GHOSTS, g_m, MP_META(item).end_ptr, MP_META(item).allocated, pair.key->refcount, pair.value->refcount)
+__CPROVER_ensures(MP_META(item).type == _CBOR_METADATA_DEFINITE ==>
                   (RET == (OLD(MP_META(item).end_ptr) < OLD(MP_META(item).allocated)) &&
                    MP_META(item).allocated == OLD(MP_META(item).allocated) && g_realloc_calls == OLD(g_realloc_calls)))
-__CPROVER_ensures((OLD(MP_META(item).type) == _CBOR_METADATA_INDEFINITE && !RET) ==> g_refused)
-__CPROVER_ensures(MP_META(item).type == OLD(MP_META(item).type))
+__CPROVER_ensures((MP_META(item).type == _CBOR_METADATA_INDEFINITE && !RET) ==> g_refused)
 __CPROVER_ensures(RET ==> (MP_META(item).end_ptr == OLD(MP_META(item).end_ptr) + 1 && MP_META(item).end_ptr <= MP_META(item).allocated &&
                            pair.key->refcount == OLD(pair.key->refcount) + 1 && pair.value->refcount == OLD(pair.value->refcount) + 1))
 __CPROVER_ensures(!RET ==> (MP_META(item).end_ptr == OLD(MP_META(item).end_ptr) && MP_META(item).allocated == OLD(MP_META(item).allocated) &&
                             pair.key->refcount == OLD(pair.key->refcount) && pair.value->refcount == OLD(pair.value->refcount) &&
                             g_live == OLD(g_live)))
-__CPROVER_ensures(g_malloc_calls == OLD(g_malloc_calls) && g_free_calls == OLD(g_free_calls) && (OLD(g_refused) ==> g_refused));
+__CPROVER_ensures(g_malloc_calls == OLD(g_malloc_calls) && g_free_calls == OLD(g_free_calls) && (OLD(g_refused) ==> g_refused) &&
+                  g_m.calls == OLD(g_m.calls) + 1 && g_m.item == item && g_m.key == pair.key && g_m.value == pair.value);
 
 /* region prototypes (generated file cbor_copy_parts.c) */
 cbor_item_t *cbor_copy__array_pre(cbor_item_t *item, cbor_item_t **verif_res, bool *verif_fell_through);
